@@ -118,3 +118,18 @@ pub fn cars_of_ep(ep: &EnergyPerformance) -> Vec<Car> {
     v.sort();
     v
 }
+
+/// label of the buildings with daily / hourly series (365 steps or more), for the evidence histogram
+pub fn label_long(ctx: &mut crate::engine::Ctx, b: &crate::gen::Building) {
+    if b.n >= 365 {
+        ctx.label("long_series");
+    }
+}
+
+/// the parser completed ambient / solar production: the parsed components hold more production components than
+/// the file declares (decided by count, not by the wording of the comment the program writes on them)
+pub fn completion_happened(b: &crate::gen::Building, comps: &cteepbd::Components) -> bool {
+    let declared = b.lines.iter().filter(|l| matches!(l.kind, crate::gen::Kind::Prod { .. })).count();
+    let parsed = comps.data.iter().filter(|e| e.is_generated()).count();
+    parsed > declared
+}
